@@ -279,7 +279,23 @@ def check_types(S, T, shape, arg, ev, label):
                 S.bad('BND', label + '-push-once', 'a field type can be pushed %d times on one path' % n, line=ev.line)
                 good = False
                 break
-    # every field loop of the handler that emits must have a push (coverage of shapes)
+    # coverage of shapes: the collection must be filled for every kind of type / variant the handler serves
+    if T not in ('Into',) and not (T == 'Default' and shape == 'union'):
+        datas, shapes_ = set(), set()
+        for pev, kind, key, val in ps:
+            at = S.facts.atoms(S.facts.effective_ctx(pev.ctx, fw), fw)
+            for a in at:
+                if a[0] == 'data' and a[2] is True:
+                    datas.add(a[1])
+                if a[0] == 'shape' and a[3] is True and a[2] in ('Named', 'Unnamed'):
+                    shapes_.add(a[2])
+        if shape == 'top' and datas != {'Struct', 'Enum', 'Union'}:
+            S.bad('BND', label + '-coverage', 'field types are collected for %s only: the fields of %s are left unbounded' % (
+                sorted(datas) or 'no kind of type', sorted({'Struct', 'Enum', 'Union'} - datas)), line=ev.line)
+            good = False
+        if shapes_ and shapes_ != {'Named', 'Unnamed'}:
+            S.bad('BND', label + '-coverage', 'field types are collected for %s fields only' % sorted(shapes_), line=ev.line)
+            good = False
     if good:
         S.ok('BND', '%s-types|%d push sites' % (label, len(ps)), {'handler': S.where, 'collection': d.name, 'pushes': len(ps)})
 
